@@ -3,7 +3,6 @@
 // For the full copyright and license information, please view the LICENSE
 // file that was distributed with this source code.
 
-use chrono::DateTime;
 use std::{
     fs::File,
     io::{stderr, Write},
@@ -182,8 +181,11 @@ impl Ls {
         let size = metadata.size();
         let last_modified = {
             let system_time = metadata.modified().unwrap();
-            let now_utc: DateTime<chrono::Utc> = system_time.into();
-            now_utc.format("%b %e %H:%M")
+            // Outside the calendar's range: the seconds since the epoch.
+            match super::time::to_datetime(system_time) {
+                Some(utc) => utc.format("%b %e %H:%M").to_string(),
+                None => super::time::seconds_since_epoch(system_time).0.to_string(),
+            }
         };
         let path = file_info.path().to_string_lossy();
 
@@ -251,8 +253,11 @@ impl Ls {
         let size = metadata.file_size();
         let last_modified = {
             let system_time = metadata.modified().unwrap();
-            let now_utc: DateTime<chrono::Utc> = system_time.into();
-            now_utc.format("%b %e %H:%M")
+            // Outside the calendar's range: the seconds since the epoch.
+            match super::time::to_datetime(system_time) {
+                Some(utc) => utc.format("%b %e %H:%M").to_string(),
+                None => super::time::seconds_since_epoch(system_time).0.to_string(),
+            }
         };
         let path = file_info.path().to_string_lossy();
 
